@@ -6,14 +6,19 @@ META = dict(
     property_id='C09',
     design_ref='DESIGN.md section 4, C09',
     technique='Coq proof over a lock-scope/member-access table REGENERATED from src/cache_storage.cpp on every run (clang AST + '
-              'independent lexical cross-check) + ThreadSanitizer multi-thread stress of the real cache + recorded-history '
-              'linearizability checking against the extracted sequential model (C07) + history oracle',
+              'independent lexical cross-check; one table entry per path of a method) + a data-carrying lock-level model proved linearizable and '
+              'proved to refine the table semantics + ThreadSanitizer multi-thread stress of the real cache (incl. injected allocation faults) + '
+              'recorded-history linearizability checking against the extracted sequential model (C07) + history oracle',
     level_text=('Theorems in coq/C09/Props.v. The table of lock scopes (rdlock/wrlock on access_lock, lock_guard on lru_mutex, their block '
                 'extents) and member accesses (field, read/write; helpers inlined) of every base_cache entry point of '
-                'mem_cache<thread_settings> is extracted from the CURRENT source by tools/locktab.py and the decidable checks are '
-                're-proved on it by vm_compute: race_free (every pair of conflicting accesses shares a lock in incompatible modes), '
-                'ordered (locks nest in a fixed order), two_phase (no lock taken after one was released), unlocked_only_constants, per-member '
-                'guards. Soundness theorems, for ANY table, ANY number of threads and calls, over a small-step interleaving semantics with a '
+                'mem_cache<thread_settings> is extracted from the CURRENT source by tools/locktab.py, one entry per path: a call of another '
+                'locked method made outside every lock and followed by return (store: catch(std::bad_alloc){remove(key);return;}) is a path of '
+                'its own; such a call under a held lock is a self-deadlock and is reported. The decidable checks are '
+                're-proved on the table by vm_compute: race_free (every pair of conflicting accesses shares a lock in incompatible modes), '
+                'ordered (locks nest in a fixed order, never re-taken), two_phase (on every path no lock taken after one was released), alt_paths '
+                '(the failed-store path has exactly the critical sections of remove), unlocked_only_constants, per-member guards, '
+                'lock_model_shape and reader_sections (the lock protocol and read/write discipline the data-level model assumes). '
+                'Soundness theorems, for ANY table, ANY number of threads and calls, over a small-step interleaving semantics with a '
                 'readers-writer lock and a mutex: race_free_sound (no reachable configuration has two threads standing at conflicting accesses), '
                 'mutual_exclusion, deadlock_free (some active thread can always move: every operation completes), field_guarded_sound, '
                 'writer_alone; instantiated for the current source: cache_race_free, cache_deadlock_free, cache_no_torn_value (the value copy-out '
@@ -22,17 +27,28 @@ META = dict(
                 'conflicts_follow_lock_points, conflict_graph_acyclic, lock_point_in_interval, lock_points_respect_real_time, and '
                 'cache_conflict_serializable for the current source (calls are conflict-serializable in lock-point order, which respects real time). '
                 'Linearizability: atomic_effect_linearizable (any system in which each call takes effect atomically between invocation and '
-                'response produces only linearizable histories w.r.t. the sequential object, here C07\'s model of mem_cache) is proved; the '
-                'classical step from conflict-serializability to the atomic-effect system (same values as the serial execution) is NOT formalised '
-                '(named gap: member accesses carry no data semantics in the table; see docs/C09.md) and is covered by search: recorded histories of '
-                '2..8 threads on the real cache are checked linearizable against the extracted model.'),
-    level_note=('Trusted: Coq kernel + vm_compute; tools/locktab.py (clang 14 JSON AST; the lexical extractor cross-checks lock scopes and '
-                'literally named members; classification of std:: container methods as mutating/read-only is a name list); pthread '
+                'response produces only linearizable histories w.r.t. the sequential object, here C07\'s model of mem_cache incl. the failed store, '
+                'which failed_store_is_remove shows to be a remove); lock_model_linearizable (the data-carrying lock-level model - mutators one '
+                'exclusive section, fetch split into lookup / LRU move under lru_mutex / copy-out under the shared lock, arbitrary interleaving - '
+                'is linearizable, any number of threads and calls); lock_model_refines_table (every reachable configuration of that model '
+                'corresponds to a reachable, race-free configuration of the table semantics of the CURRENT source holding exactly the same locks). '
+                'The clauses of the property text for concurrent histories (concurrent_hit_explained, lock_model_hit_explained: for any history '
+                'linearizable w.r.t. the cache object, hence for every execution of the data-level model): a hit is exactly the entry of a store to '
+                'the same key (no torn value, no value of another key), that store was not invoked after the fetch returned, and no rise of one of '
+                'its triggers / remove / clear / other store / failed store of the key ran entirely between that store and the fetch; and (limit 0, no '
+                'failed store) a fetch invoked after a live store returned, with every other invalidating call over before that store, does not miss; every stats() '
+                'answer has keys <= triggers, keys = 0 iff triggers = 0, and keys <= limit when a limit is set. '
+                'Not a Coq theorem: that the data effect of each section of the real code is the step the data-level model gives it (C07\'s '
+                'sequential correspondence + the shared-lock read discipline proved on the table); that link is covered by search: recorded '
+                'histories of 2..8 threads on the real cache, with injected allocation faults, are checked linearizable against the extracted model.'),
+    level_note=('Trusted: Coq kernel + vm_compute; tools/locktab.py (clang 14 JSON AST; the lexical extractor cross-checks lock scopes, '
+                'literally named members and the calls of locked methods in tail position; classification of std:: container methods as '
+                'mutating/read-only is a name list; virtual calls inside the class resolved statically - no derived class, checked); pthread '
                 'rwlock/mutex behave as the lock model (the chain guard class -> booster::shared_mutex -> pthread_rwlock_* is checked by the '
                 'translator); locks are synchronising (C++11 memory model); field-level granularity (all entries of a container are one region: '
                 'conservative); process-shared variant (fcntl/pshared locks) not covered; sequential semantics of each call = C07 model (tied by '
-                'C07\'s correspondence and re-tied here single-threaded); ThreadSanitizer and the Wing-Gong checker are search tools: absence of '
-                'reports is evidence, not proof.'),
+                'C07\'s correspondence and re-tied here single-threaded); allocation faults other than the value copy of store not in the '
+                'sequential object used here; ThreadSanitizer and the Wing-Gong checker are search tools: absence of reports is evidence, not proof.'),
 )
 
 NOW = 1000
@@ -86,7 +102,7 @@ class Op:
         self.deadline = self.gen = None
         self.inv = self.res = 0
         self.out = None
-        if self.kind == 'S':
+        if self.kind in 'SX':
             self.key = vlib.unhex(f[1])
             self.val = value_of(f[2])
             self.trigs = frozenset(vlib.unhex(t) for t in f[3].split('+')) if f[3] != '.' else frozenset()
@@ -148,6 +164,9 @@ def oracle(case, out):
         m = re.search(r'ThreadSanitizer: ([a-z\- ]+)', out)
         if m:
             return (tsan_key(m.group(1)), 'ThreadSanitizer report, then the process died: ' + out[:600])
+        if 'rc=-14' in out:
+            return ('operation-does-not-complete', 'the run did not finish within 120 s and was killed by the harness alarm (a call that never '
+                    'returns, e.g. a thread blocking on a lock it holds itself): ' + out[:300])
         return ('crash', 'harness process died while running the case (memory corruption?): ' + out[:600])
     try:
         tsan, kinds = parse_out(groups, out)
@@ -169,7 +188,9 @@ def oracle(case, out):
         if nthreads <= 1:
             return a.g < b.g
         return a.g == 0 and b.g != 0
-    expect = {'S': 's', 'R': 'r', 'D': 'd', 'C': 'c'}
+    # X = store during which the value copy throws std::bad_alloc: it must take the failure path (answer x), it never creates
+    # an entry, and it invalidates the entry of its key like remove does (the superseded value must not be served any more)
+    expect = {'S': 's', 'X': 'x', 'R': 'r', 'D': 'd', 'C': 'c'}
     stores = {}
     for o in ops:
         if o.kind == 'S':
@@ -179,6 +200,9 @@ def oracle(case, out):
     for o in ops:
         r = o.out
         if o.kind in expect:
+            if o.kind == 'X' and r == 's':
+                return ('alloc-fault-not-taken', 'op %s: the injected std::bad_alloc did not reach store()\'s value copy (value too short, or the '
+                        'copy is no longer the first allocation of store)' % o.tok)
             if r != expect[o.kind]:
                 return ('wrong-result-kind', 'op %s answered %s' % (o.tok, r))
             continue
@@ -199,7 +223,7 @@ def oracle(case, out):
                 for s in stores.get(o.key, []):
                     if s.deadline >= now and before(s, o):
                         inval = [x for x in ops if x is not s and (
-                            (x.kind == 'R' and x.key in s.all_trigs()) or (x.kind == 'D' and x.key == s.key) or x.kind == 'C' or
+                            (x.kind == 'R' and x.key in s.all_trigs()) or (x.kind in 'DX' and x.key == s.key) or x.kind == 'C' or
                             (x.kind == 'S' and x.key == s.key))]
                         if all(before(x, s) for x in inval):
                             return ('miss-of-live-entry', 'fetch %s missed although %s completed before it and nothing could have invalidated it' % (o.tok, s.tok))
@@ -226,7 +250,7 @@ def oracle(case, out):
             for x in ops:
                 if x is s:
                     continue
-                if ((x.kind == 'R' and x.key in s.all_trigs()) or (x.kind == 'D' and x.key == s.key) or x.kind == 'C' or
+                if ((x.kind == 'R' and x.key in s.all_trigs()) or (x.kind in 'DX' and x.key == s.key) or x.kind == 'C' or
                         (x.kind == 'S' and x.key == s.key)) and before(s, x) and before(x, o):
                     stale = x
                     break
@@ -258,7 +282,7 @@ def overlap_stats(groups):
                 break
             if a.g != b.g:
                 n += 1
-                if a.kind in 'SRDC' or b.kind in 'SRDC':
+                if a.kind in 'SXRDC' or b.kind in 'SXRDC':
                     nm += 1
     return n, nm
 
@@ -278,7 +302,7 @@ def nontrivial(case, out):
         return overlap_stats(groups)[1] > 0
     # race mode: at least two threads got hits (LRU contention) or a hit and a mutator in different threads
     th_hit = set(o.g for o in ops if o.g > 0 and o.kind == 'F' and o.out.startswith('h:'))
-    th_mut = set(o.g for o in ops if o.g > 0 and o.kind in 'SRDC')
+    th_mut = set(o.g for o in ops if o.g > 0 and o.kind in 'SXRDC')
     return len(th_hit) >= 2 or (th_hit and th_mut and len(th_hit | th_mut) >= 2)
 
 
@@ -295,9 +319,10 @@ def classify(case, out):
 # generators
 # --------------------------------------------------------------------------------------------
 class Gen:
-    def __init__(self, rng):
+    def __init__(self, rng, with_x=True):
         self.rng = rng
         self.n = 0
+        self.with_x = with_x      # False: no harness build in which the injected allocation fault works -> plain stores instead
 
     def store(self, keys=KEYS, live_only=False):
         r = self.rng
@@ -314,6 +339,14 @@ class Gen:
         g = '-' if r.random() < 0.8 else str(r.choice([0, 1, 7, 2 ** 40, 2 ** 64 - 1]))
         return 'S:%s:#%dx%s:%s:%d:%s' % (hx(k), ln, hx(tag), '+'.join(hx(t) for t in sorted(tr)) if tr else '.', dl, g)
 
+    def failed_store(self, keys=KEYS):
+        """a store whose value copy fails: the value must be long enough (>= 16 bytes) for the copy to allocate"""
+        t = self.store(keys).split(':')
+        ln = int(t[2][1:t[2].index('x')])
+        if ln < 33:
+            t[2] = '#%d%s' % (self.rng.choice([16, 17, 33, 100]), t[2][t[2].index('x'):])
+        return 'X:' + ':'.join(t[1:])
+
     def op(self, mix, keys=KEYS):
         r = self.rng
         x = r.random()
@@ -324,6 +357,8 @@ class Gen:
                 break
         if kind == 'S':
             return self.store(keys)
+        if kind == 'X':
+            return self.failed_store(keys) if self.with_x else self.store(keys)
         if kind == 'F':
             return 'F:' + hx(r.choice(keys))
         if kind == 'R':
@@ -333,29 +368,31 @@ class Gen:
         return kind          # C, Z
 
 
-MIX_ALL = [('F', 0.42), ('S', 0.25), ('R', 0.1), ('D', 0.08), ('C', 0.05), ('Z', 0.10)]
+MIX_ALL = [('F', 0.42), ('S', 0.23), ('X', 0.04), ('R', 0.09), ('D', 0.07), ('C', 0.05), ('Z', 0.10)]
 MIX_READ = [('F', 0.9), ('Z', 0.1)]
-MIX_READ_RARE_W = [('F', 0.85), ('Z', 0.05), ('S', 0.06), ('R', 0.02), ('D', 0.02)]
-MIX_WRITE = [('S', 0.5), ('R', 0.15), ('D', 0.15), ('C', 0.1), ('F', 0.05), ('Z', 0.05)]
+MIX_READ_RARE_W = [('F', 0.85), ('Z', 0.05), ('S', 0.05), ('X', 0.01), ('R', 0.02), ('D', 0.02)]
+MIX_WRITE = [('S', 0.45), ('X', 0.08), ('R', 0.14), ('D', 0.13), ('C', 0.1), ('F', 0.05), ('Z', 0.05)]
 
 
 def mk_case(mode, limit, seed, prefill, groups):
     return 'mt %s %d %d %d %s' % (mode, limit, NOW, seed, ' '.join(prefill)) + ''.join(' ; ' + ' '.join(g) for g in groups)
 
 
-def gen_cases(ctx):
+def gen_cases(ctx, with_x=True):
     rng = ctx.rng
-    g = Gen(rng)
+    g = Gen(rng, with_x)
     seq, race, lin = [], [], []
     limits = [0, 0, 0, 1, 2, 3, 5]
     # (a) deterministic: prefill + one group, both modes (single-threaded correspondence with the sequential model)
     for _ in range(ctx.scale(400, 3000)):
+        g.with_x = with_x and rng.random() < 0.5
         lim = rng.choice(limits)
         n = rng.choice([1, 2, 3, 5, 8, 13, 30])
         pre = [g.op(MIX_ALL) for _ in range(rng.choice([0, 1, 3]))]
         seq.append(mk_case(rng.choice('rl'), lim, 0, pre, [[g.op(MIX_ALL) for _ in range(n)]]))
     # (b) race mode: no harness synchronisation besides the start line
     for i in range(ctx.scale(150, 1200)):
+        g.with_x = with_x and rng.random() < 0.3        # most cases stay on the primary (clang TSan) build
         lim = rng.choice(limits)
         nt = rng.choice([2, 2, 3, 4, 4, 6, 8])
         nops = rng.choice([20, 40, 80]) if ctx.quick() else rng.choice([20, 40, 80, 200])
@@ -379,6 +416,7 @@ def gen_cases(ctx):
         race.append(mk_case('r', lim, rng.randrange(1, 2 ** 31), pre, groups))
     # (c) history mode: short concurrent histories for the linearizability checker
     for i in range(ctx.scale(1200, 8000)):
+        g.with_x = with_x and rng.random() < 0.3
         lim = rng.choice(limits)
         nt = rng.choice([2, 2, 3, 3, 4, 5, 8])
         per = {2: [6, 10, 14], 3: [5, 8, 10], 4: [4, 6, 8], 5: [4, 6], 8: [3, 4]}[nt]
@@ -469,28 +507,56 @@ def lin_line(case, out, budget):
 
 
 def build_tsan_harness(ctx):
-    """harness/C09_mt.cpp + the CURRENT src/cache_storage.cpp + booster's pthread.cpp, all instrumented by ThreadSanitizer"""
+    """harness/C09_mt.cpp + the CURRENT src/cache_storage.cpp + booster's pthread.cpp, all instrumented by ThreadSanitizer.
+    Returns (exe, how, tsan mode, exe for cases with injected allocation faults or None, how).  The primary build is clang's (static TSan
+    runtime); the harness's replacement of operator new (fault injection for the X operation) is inert there, so a second build with g++
+    (shared libtsan) runs the cases that contain X operations."""
     outdir = os.path.join(vlib.WORK, 'bin')
     os.makedirs(outdir, exist_ok=True)
     srcs = [os.path.join(vlib.VERIF, 'harness', 'C09_mt.cpp'), os.path.join(vlib.REPO, 'src', 'cache_storage.cpp'),
             os.path.join(vlib.REPO, 'booster', 'lib', 'thread', 'src', 'pthread.cpp')]
-    last = ''
-    for cxx, san, tag in (('clang++', ['-fsanitize=thread'], 'clang++ -fsanitize=thread'), ('g++', ['-fsanitize=thread'], 'g++ -fsanitize=thread'),
-                          ('g++', [], 'g++ (NO ThreadSanitizer)')):
-        out = os.path.join(outdir, 'C09_mt')
+
+    def build(cxx, san, name):
+        out = os.path.join(outdir, name)
         cmd = [cxx] + vlib.cxx_flags() + san + srcs + ['-o', out] + vlib.link_flags()
-        with vlib.Lock('harness-C09_mt'):
+        with vlib.Lock('harness-' + name):
             p = vlib.sh(cmd, timeout=600)
-        if p.returncode == 0:
-            rc, o, e = vlib.run_lines(out, ['probe'], timeout=60, env=TSAN_ENV)
-            if o and o[0].startswith('probe tsan='):
-                return out, tag, o[0].split('=')[1]
-            last = 'probe failed: rc=%s %s %s' % (rc, o, e[-500:])
-        else:
-            last = (p.stdout + p.stderr).decode(errors='replace')[-3000:]
-            if not san:
-                break
-    return None, last, 'off'
+        if p.returncode != 0:
+            return None, (p.stdout + p.stderr).decode(errors='replace')[-3000:]
+        rc, o, e = vlib.run_lines(out, ['probe'], timeout=60, env=TSAN_ENV)
+        m = re.match(r'probe tsan=(\w+) fault=(\w+)', o[0]) if o else None
+        if not m:
+            return None, 'probe failed: rc=%s %s %s' % (rc, o, e[-500:])
+        return out, (m.group(1), m.group(2))
+
+    res = {}
+
+    def second():
+        for cxx, san, tag in (('g++', ['-fsanitize=thread'], 'g++ -fsanitize=thread'), ('g++', [], 'g++ (NO ThreadSanitizer)')):
+            exe, info = build(cxx, san, 'C09_mt_fi')
+            if exe and info[1] == 'works':
+                res['fi'] = (exe, tag + (' tsan=' + info[0]))
+                return
+        res['fi'] = (None, 'no build in which the injected allocation fault takes effect')
+    th = threading.Thread(target=second)
+    th.start()
+    last = ''
+    prim = None
+    for cxx, san, tag in (('clang++', ['-fsanitize=thread', '-Wl,--allow-multiple-definition'], 'clang++ -fsanitize=thread'),
+                          ('g++', ['-fsanitize=thread'], 'g++ -fsanitize=thread'), ('g++', [], 'g++ (NO ThreadSanitizer)')):
+        exe, info = build(cxx, san, 'C09_mt')
+        if exe:
+            prim = (exe, tag, info[0], info[1])
+            break
+        last = info
+        if not san:
+            break
+    th.join()
+    if not prim:
+        return None, last, 'off', None, ''
+    if prim[3] == 'works':
+        return prim[0], prim[1], prim[2], prim[0], prim[1]
+    return prim[0], prim[1], prim[2], res['fi'][0], res['fi'][1]
 
 
 def gen_table(ctx):
@@ -501,14 +567,19 @@ def gen_table(ctx):
         with vlib.Lock('gen-Gen_locktab'):
             tabs, ex = locktab.generate(vlib.REPO, vlib.repo_incs(), out)
         summ = {}
-        for name, sc in tabs.items():
+        callee_of = {(caller, idx): callee for caller, callee, idx in ex.alt_info}
+        for name, ps in tabs.items():
             def paths(s, p):
                 q = p + (['%s:%s' % (s.lock, s.mode)] if s.lock else [])
                 r = [('/'.join(q) or '-') + ' {' + ' '.join('%s%s' % (f, '!' if rw == 'W' else '') for f, rw in sorted(s.acc)) + '}']
                 for c in s.children:
                     r += paths(c, q)
                 return r
-            summ[name] = paths(sc, [])
+            for i, sc in enumerate(ps):
+                summ[name if i == 0 else '%s [path: %s() outside every lock, then return]' % (name, callee_of[(name, i)])] = paths(sc, [])
+        for kind, text in ex.diagnostics:
+            if kind == 'deadlock':
+                ctx.broke('lock structure of src/cache_storage.cpp: self-deadlock (an operation that takes this path never completes)', text)
         return summ
     except Unsupported as e:
         ctx.broke('translator locktab failed on src/cache_storage.cpp (tie to source broken: lock structure not understood)', str(e))
@@ -524,8 +595,29 @@ def run(ctx):
     th.start()
     summ = gen_table(ctx)
     t1 = time.time()
+    # translator self-test (in parallel with the Coq build): on textual variants of the CURRENT store() - remove(key) called under
+    # store's own lock; remove(key) not followed by return; a behaviour-preserving rewrite - the translator must still diagnose the
+    # self-deadlock / emit two sections / emit the same lock structure
+    st = {}
+
+    def selftest():
+        import locktab
+        try:
+            st['r'] = locktab.selftest(vlib.REPO, vlib.repo_incs(), os.path.join(ctx.workdir, 'locktab-selftest-%d' % os.getpid()))
+        except Exception as e:
+            st['r'] = [('selftest', 'FAILED: %s: %s' % (type(e).__name__, e))]
+    ts = threading.Thread(target=selftest)
+    if summ is not None:
+        ts.start()
     res = vlib.coq_props('C09')
     ctx.proof(res)
+    if summ is not None:
+        ts.join()
+        ctx.coverage['locktab_selftest'] = dict(st.get('r', []))
+        for n, r in st.get('r', []):
+            if r.startswith('FAILED'):
+                ctx.broke('translator self-test %s: tools/locktab.py no longer handles a call of a locked method as documented '
+                          '(fail closed on a nested / non-tail call, same table for a behaviour-preserving rewrite)' % n, r)
     t2 = time.time()
     ctx.coverage['locktab_wall_s'] = round(t1 - t0, 2)
     if summ:
@@ -533,22 +625,29 @@ def run(ctx):
     ctx.coverage['trusted_base'] = [
         'Coq 8.16.1 kernel, vm_compute (table checks); no native_compute',
         'tools/locktab.py + clang 14 JSON AST of mem_cache<thread_settings> (lock scopes = RAII guard declarations to end of block; member accesses; '
-        'helpers inlined; std:: container methods classified mutating/read-only by name) with an independent lexical extractor as cross-check',
+        'helpers inlined; calls of locked methods: nested scope / alternative path / sequential sections; std:: container methods classified '
+        'mutating/read-only by name) with an independent lexical extractor as cross-check',
         'lock model: pthread rwlock = many Shared or one Excl holder, pthread mutex = one holder; guard classes checked down to the pthread calls',
         'sequential semantics of each call: coq/C07/Defs.v (C07 model), extracted with ExtrOcamlBasic, OCaml 4.13.1',
-        'harness/C09_mt.cpp (interposed time(), TSan report hook), ocaml/C09_driver.ml (Wing-Gong search), checks/C09.py (generators, history oracle)',
-        'ThreadSanitizer (clang 14 runtime) for happens-before race detection on the instrumented cache code']
+        'harness/C09_mt.cpp (interposed time(), TSan report hook, replaced operator new for the injected std::bad_alloc), ocaml/C09_driver.ml '
+        '(Wing-Gong search), checks/C09.py (generators, history oracle)',
+        'ThreadSanitizer (clang 14 runtime; gcc 12 libtsan for the cases with injected allocation faults) for happens-before race detection on '
+        'the instrumented cache code']
     ctx.assumptions = ['locks are synchronising operations (C++11 memory model); pthread rwlock/mutex implement the lock model',
                        'member-level granularity: all entries of one container are one region (conservative)',
                        'only the base_cache virtual interface reaches the object (checked: the class is local to the TU, factories do not touch it)',
-                       'constant clock during a run (time() interposed); no allocation failure',
-                       'linearizability: the step from the lock-level semantics to atomic effects is argued on paper (two-phase locking) and searched, not proved']
+                       'constant clock during a run (time() interposed); the only allocation failure considered is std::bad_alloc in the value copy of store',
+                       'linearizability: proved for the data-level lock model, which is proved to refine the table semantics of the current source; that each '
+                       'section of the real code has the data effect the model gives it is C07\'s sequential correspondence + search (recorded histories), not a Coq theorem']
     th.join()
-    exe, how, tsan_mode = hres['r']
+    exe, how, tsan_mode, exe_fi, how_fi = hres['r']
     if not exe:
         ctx.broke('TSan harness build failed', how)
         return
     ctx.coverage['harness_build'] = how
+    ctx.coverage['harness_build_fault_injection'] = how_fi
+    if not exe_fi:
+        ctx.notes.append('no harness build in which the injected std::bad_alloc takes effect: the failed-store operation (X) was not exercised')
     ctx.coverage['tsan'] = tsan_mode
     if tsan_mode != 'on':
         ctx.notes.append('ThreadSanitizer unavailable: the harness ran uninstrumented (history oracle and linearizability checks only)')
@@ -559,7 +658,7 @@ def run(ctx):
     ctx.coverage['rule'] = (
         'case = limit, constant clock, optional prefill run by the main thread, then one operation sequence per thread (2..8 threads) over 3 keys / 3 triggers '
         '(one trigger is named like a key); values carry a unique tag (key, serial) and are 5..700 bytes; deadlines live/at-now/expired; explicit and automatic '
-        'generations; limits 0,1,2,3,5. Three families: (a) one thread group - deterministic, compared line by line with the extracted model; (b) race mode - '
+        'generations; limits 0,1,2,3,5; X = store whose value copy throws an injected std::bad_alloc (value >= 16 bytes; must behave like remove). Three families: (a) one thread group - deterministic, compared line by line with the extracted model; (b) race mode - '
         'threads share only the cache and a start line, 20-200 calls each, five shapes (readers only on a prefilled cache, readers with rare writers, one writer '
         'and readers, writers only, uniform mix), verdict = ThreadSanitizer reports + history oracle; (c) history mode - every call bracketed by ticks of a '
         'seq_cst counter, short histories (<= 48 calls) checked linearizable by search against the extracted model. Non-trivial: (a) at least one hit and one '
@@ -586,8 +685,10 @@ def run(ctx):
             (lin if mode == 'l' else race).extend(variants)
     else:
         corpus = vlib.corpus_cases('C09')
-        seq, race, lin = gen_cases(ctx)
+        seq, race, lin = gen_cases(ctx, with_x=exe_fi is not None)
         for c in corpus:
+            if ' X:' in c and not exe_fi:
+                continue
             try:
                 mode, limit, now, seed, groups = parse_case(c)
             except Exception:
@@ -596,11 +697,30 @@ def run(ctx):
     cov = ctx.coverage
     # (a) deterministic cases: exact correspondence with the model + oracle
     if seq:
-        vlib.differential(ctx, seq, exe, mexe, oracle, nontrivial, classify, impl_env=TSAN_ENV, parallel=False,
+        vlib.differential(ctx, seq, exe_fi or exe, mexe, oracle, nontrivial, classify, impl_env=TSAN_ENV, parallel=False,
                           what='single-threaded correspondence (C07 model through Seq.eff) vs the real cache')
     # (b) + (c) concurrent cases
     mt = race + lin
-    outs, errs = run_harness(exe, mt, jobs)
+    # cases with an injected allocation fault (X) go through the build in which the fault takes effect
+    ix = [i for i, c in enumerate(mt) if ' X:' in c] if exe_fi and exe_fi != exe else []
+    if ix:
+        sx = set(ix)
+        i0 = [i for i in range(len(mt)) if i not in sx]
+        with concurrent.futures.ThreadPoolExecutor(2) as pool:
+            jb = max(1, min(jobs - 1, round(jobs * len(ix) / float(len(mt)))))
+            fa = pool.submit(run_harness, exe, [mt[i] for i in i0], max(1, jobs - jb))
+            fb = pool.submit(run_harness, exe_fi, [mt[i] for i in ix], jb)
+            (oa, ea), (ob, eb) = fa.result(), fb.result()
+        outs = [None] * len(mt)
+        for i, o in zip(i0, oa):
+            outs[i] = o
+        for i, o in zip(ix, ob):
+            outs[i] = o
+        outs = [o if o is not None else '<skipped>' for o in outs]
+        errs = ea + eb
+        cov['cases_with_injected_alloc_fault'] = len(ix)
+    else:
+        outs, errs = run_harness(exe, mt, jobs)
     t4 = time.time()
     seen = set()
     hist = cov.setdefault('distribution', {})
